@@ -1245,9 +1245,13 @@ def main(prop, tier, seed):
         if prop == "C19" and not run.machinery_errors:
             funcfl_negative_pair(run)
             row_at_zero(run)
+            typed_values(run, "GULP")
+        if prop == "C01" and not run.machinery_errors:
+            typed_values(run, "LAMMPS")
         if prop == "C02" and not run.machinery_errors:
             dlpoly_dynamic_range(run)
             dlpoly_large_and_grid_points(run)
+            dlpoly_header_sweep(run, tier)
         if prop in ("C04", "C05") and not run.machinery_errors:
             calibrate_eeam(run)
         if tier == "thorough" and prop in ("C01", "C03", "C05"):
@@ -1540,6 +1544,77 @@ def row_at_zero(run):
                     run.violation(dict(engine="layout", target=target, clause="row-zero"), "%s via ini: [row-zero] '>=0 %s': the row at r = 0 holds %r, the form's value there is %r" % (target, defn, got, want), dict(defn=defn))
             except Exception as e:
                 run.violation(dict(engine="layout", target=target, clause="row-zero"), "%s via ini: [row-zero] '>=0 %s' (regular at r = 0) cannot be tabulated: %s: %s" % (target, defn, type(e).__name__, e), dict(defn=defn))
+
+
+def typed_values(run, target):
+    """C01 / C19: values are numbers, whatever their Python type.  A cap written with an integer literal returns a Python int on the
+    first rows and floats afterwards (or the other way round); numpy scalars; through the Python API (class and writePotentials)
+    and - a whole-number constant in front of a second range - through a potable file.  Every printed energy is the callable's."""
+    import io, math, numpy
+    import atsim.potentials as P
+    cutoff, nr = 6.0, 13
+    cases = [("int on the first rows", lambda r: 5000 if r <= 1.0 else 4505.5458 - r, None),
+             ("int on the last rows", lambda r: 4505.5458 - r if r <= 4.0 else 0, None),
+             ("numpy scalars", lambda r: numpy.float64(4505.5458) - numpy.float32(0.5) * r, None),
+             ("whole-number constant, then a second range", lambda r: 2 if r < 1.1 else 1000.0 * math.exp(-r / 0.5) - 32.0 / r ** 6, "as.constant 2 >=1.1 as.buck 1000.0 0.5 32.0")]
+    for name, fn, defn in cases:
+        for route in ("class", "wp", "ini"):
+            if defn is None and route == "ini":
+                continue
+            run.evaluations += 1
+            run.replayed += 1
+            run.distinct("typed-values:%s:%s:%s" % (target, name, route))
+            out = io.StringIO()
+            try:
+                if route == "class":
+                    (PT.LAMMPS_PairTabulation if target == "LAMMPS" else PT.GULP_PairTabulation)([Potential("Aa", "Bq1", fn)], cutoff, nr).write(out)
+                elif route == "wp":
+                    P.writePotentials(target, [Potential("Aa", "Bq1", fn)], cutoff, nr, out=out)
+                else:
+                    Configuration().read(io.StringIO("[Tabulation]\ntarget : %s\ncutoff : %r\nnr : %d\n\n[Pair]\nAa-Bq1 : %s\n" % (target, cutoff, nr, defn))).write(out)
+                if target == "LAMMPS":
+                    rows = [(float(t[1]), float(t[2])) for t in formats.parse_lammps_table(out.getvalue())[0]["rows"]]
+                else:
+                    rows = [(float(t[1]), float(t[0])) for t in formats.parse_gulp(out.getvalue())[0]["rows"]]
+                for r, e in rows:
+                    if r == 0.0:
+                        continue
+                    want = float(fn(r))
+                    if abs(e - want) > 1e-7 * max(1.0, abs(want)):
+                        run.violation(dict(engine="layout", target=target, clause="typed-values", route=route),
+                                      "%s via %s: [typed-values] potential '%s': the row at r=%s holds the energy %r, the potential gives %r" % (target, route, name, r, e, want), dict(name=name, route=route))
+                        break
+            except Exception as e:
+                run.violation(dict(engine="layout", target=target, clause="typed-values", route=route),
+                              "%s via %s: [typed-values] potential '%s': %s: %s" % (target, route, name, type(e).__name__, e), dict(name=name, route=route))
+
+
+def dlpoly_header_sweep(run, tier):
+    """C02: the header's ngrid is the row count and the number of energies / forces of every block, for EVERY row count divisible by
+    four up to 1000 (2000) and a set of decimal cutoffs - not only where cutoff / delpot happens to be a whole number in floating point"""
+    import io
+    pot = [Potential("Aa", "Bq1", lambda r: 1.5)]
+    for cutoff in (6.5, 8.0, 9.0, 10.0, 12.0, 15.0, 2.4) + ((7.3, 11.1, 4.25) if tier == "thorough" else ()):
+        for nr in range(8, 2001 if tier == "thorough" else 1001, 4):
+            out = io.StringIO()
+            run.evaluations += 1
+            try:
+                PT.DLPoly_PairTabulation(pot, cutoff, nr).write(out)
+                lines = out.getvalue().split("\n")
+                hdr = lines[1]
+                ngrid = int(hdr[30:40])
+                nval = sum(len(l) // 15 for l in lines[3:] if l.strip())
+                if ngrid != nr or nval != 2 * nr:
+                    run.violation(dict(engine="layout", target="DLPOLY", clause="header-sweep", route="class"),
+                                  "DLPOLY via class: [header-sweep] cutoff %s, %d rows: the header declares ngrid = %d, the block holds %d values (2 x %d wanted)" % (cutoff, nr, ngrid, nval, nr),
+                                  dict(cutoff=cutoff, nr=nr))
+                    return
+            except Exception as e:
+                run.violation(dict(engine="layout", target="DLPOLY", clause="header-sweep", route="class"),
+                              "DLPOLY via class: [header-sweep] cutoff %s, %d rows: %s: %s" % (cutoff, nr, type(e).__name__, e), dict(cutoff=cutoff, nr=nr))
+                return
+    run.distinct("header-sweep")
+
 
 
 def dlpoly_large_and_grid_points(run):
